@@ -152,7 +152,7 @@ def judge_default(ctx, inst, S):
         return UNDECIDED, "loop in optimised body (emulation)", None, None
     actual = S.ret
     expected = inst.expect(ctx)
-    lane_bits = vt.eb if inst.ret == "V" else None
+    lane_bits = vt.eb if (inst.ret == "V" or (inst.ret == "S" and vt.is_float)) else None
     argspecs = ctx.argspecs
     ld = getattr(inst, "lane_dom", None)
     if ld is not None:
